@@ -88,7 +88,6 @@ package vectorstore
 //@   property C04 C08
 //@   pure
 //@   arith bv
-//@   requires bqp != nil
 //@   ensures result == nil && len(bqp.BinaryVector) != 0 ==> ncalls(Put) == 1 && enumOkVQ(callarg(Put, 1, 1)) && nodeKeyOf(callarg(Put, 1, 1), id, 'q') && callarg(Put, 1, 2) == callres(EdgeListToBytes, 1, 0) && callarg(EdgeListToBytes, 1, 0) == bqp.BinaryVector
 //@   ensures result == nil && len(bqp.BinaryVector) == 0 && len(bqp.Vector) != 0 ==> ncalls(Put) == 1 && enumOkVQ(callarg(Put, 2, 1)) && nodeKeyOf(callarg(Put, 2, 1), id, 'v') && callarg(Put, 2, 2) == callres(Float32ToBytes, 1, 0) && callarg(Float32ToBytes, 1, 0) == bqp.Vector
 //@   ensures len(bqp.BinaryVector) != 0 && callres(Put, 1, 0) != nil ==> result != nil
@@ -115,7 +114,6 @@ package vectorstore
 //@   ensures err == nil && callres(Get, 1, 0) == nil ==> point.Vector == callres(BytesToFloat32, 1, 0) && callarg(BytesToFloat32, 1, 0) == callres(Get, 2, 0)
 //@ func (*binaryQuantizedPoint).CheckAndClearDirty
 //@   property C04 C08
-//@   requires bqp != nil
 //@   modifies bqp.isDirty
 //@   ensures result == old(bqp.isDirty) && !bqp.isDirty
 
@@ -132,7 +130,6 @@ package vectorstore
 //@   property C04 C08
 //@   pure
 //@   arith bv
-//@   requires p != nil
 //@   ensures result == nil && len(p.Vector) != 0 ==> enumOkV(callarg(Put, 1, 1)) && nodeKeyOf(callarg(Put, 1, 1), id, 'v') && callarg(Put, 1, 2) == callres(Float32ToBytes, 1, 0) && callarg(Float32ToBytes, 1, 0) == p.Vector
 //@   ensures result == nil && len(p.CentroidIds) != 0 ==> nodeKeyOf(callarg(Put, 2, 1), id, 'q') && callarg(Put, 2, 2) == p.CentroidIds
 //@   ensures len(p.Vector) != 0 && callres(Put, 1, 0) != nil ==> result != nil
@@ -160,6 +157,59 @@ package vectorstore
 //@   ensures err == nil && callres(Get, 1, 0) == nil ==> point.Vector == callres(BytesToFloat32, 1, 0) && callarg(BytesToFloat32, 1, 0) == callres(Get, 2, 0)
 //@ func (*productQuantizedPoint).CheckAndClearDirty
 //@   property C04 C08
-//@   requires p != nil
 //@   modifies p.isDirty
 //@   ensures result == old(p.isDirty) && !p.isDirty
+// as seen by an index: a vector store's Flush works on the store's own cache and on the bucket,
+// neither of which the index reads directly (the implementations are verified on their own)
+//@ func (VectorStore).Flush
+//@   trusted
+//@   pure
+//@ func (VectorStore).Exists
+//@   trusted
+//@   pure
+//@ func (VectorStore).Set
+//@   trusted
+//@   pure
+//@   allocates
+//@ func New
+//@   trusted
+//@   pure
+//@   allocates
+
+// ---- persisted quantiser parameters (property C08): Flush writes the item cache and then the
+// learned parameters under the keys the constructors read back, with the inverse codec.
+//@ func (*binaryQuantizer).Flush
+//@   property C08
+//@   requires bq.items != nil && unheld(bq.items.itemsMu) && bq.items.items != nil && forallv(k uint64, contains(bq.items.items, k) ==> bq.items.items[k] != nil)
+//@   requires forallv(a uint64, forallv(b uint64, a != b && contains(bq.items.items, a) && contains(bq.items.items, b) ==> bq.items.items[a] != bq.items.items[b]))
+//@   ensures callarg(Flush, 1, 0) == bq.items && (callres(Flush, 1, 0) != nil ==> result != nil && ncalls(Put) == 0)
+//@   ensures result == nil && len(bq.threshold) > 0 ==> ncalls(Put) == 1 && string(callarg(Put, 1, 1)) == "_binaryQuantizerThreshold" && callarg(Put, 1, 2) == callres(Float32ToBytes, 1, 0) && callarg(Float32ToBytes, 1, 0) == bq.threshold
+//@   ensures ncalls(Put) == 1 && callres(Put, 1, 0) != nil ==> result != nil
+//@ func newBinaryQuantizer
+//@   property C08
+//@   safety -makelen -overflow
+//@   ensures err == nil ==> result0 != nil && fresh(result0) && result0.bucket == bucket && result0.items != nil && result0.items.bucket == bucket
+//@   ensures err == nil && params.Threshold == nil ==> ncalls(Get) == 1 && string(callarg(Get, 1, 1)) == "_binaryQuantizerThreshold"
+//@   ensures err == nil && params.Threshold == nil && callres(Get, 1, 0) != nil ==> result0.threshold == callres(BytesToFloat32, 1, 0) && callarg(BytesToFloat32, 1, 0) == callres(Get, 1, 0)
+//@   ensures err == nil && params.Threshold == nil && callres(Get, 1, 0) == nil ==> result0.threshold == nil
+//@   ensures err == nil && params.Threshold != nil ==> len(result0.threshold) == vectorLen && forall(i, 0, vectorLen, sameFloat(result0.threshold[i], *params.Threshold))
+//@   loop 1 invariant rangeindex >= -1 && rangeindex < len(bq.threshold) && len(bq.threshold) == vectorLen && fresh(bq) && fresh(bq.threshold) && params.Threshold != nil
+//@   loop 1 invariant forall(i, 0, rangeindex+1, sameFloat(bq.threshold[i], *params.Threshold))
+//@ func (*productQuantizer).Flush
+//@   property C08
+//@   requires pq.items != nil && unheld(pq.items.itemsMu) && pq.items.items != nil && forallv(k uint64, contains(pq.items.items, k) ==> pq.items.items[k] != nil)
+//@   requires forallv(a uint64, forallv(b uint64, a != b && contains(pq.items.items, a) && contains(pq.items.items, b) ==> pq.items.items[a] != pq.items.items[b]))
+//@   ensures callarg(Flush, 1, 0) == pq.items && (callres(Flush, 1, 0) != nil ==> result != nil && ncalls(Put) == 0)
+//@   ensures result == nil && len(pq.flatCentroids) != 0 ==> ncalls(Put) == 2 && string(callarg(Put, 1, 1)) == "_productQuantizerCentroidDists" && callarg(Put, 1, 2) == callres(Float32ToBytes, 1, 0) && callarg(Float32ToBytes, 1, 0) == pq.centroidDists
+//@   ensures result == nil && len(pq.flatCentroids) != 0 ==> string(callarg(Put, 2, 1)) == "_productQuantizerFlatCentroids" && callarg(Put, 2, 2) == callres(Float32ToBytes, 2, 0) && callarg(Float32ToBytes, 2, 0) == pq.flatCentroids
+//@   ensures ncalls(Put) >= 1 && callres(Put, 1, 0) != nil ==> result != nil
+//@   ensures ncalls(Put) == 2 && callres(Put, 2, 0) != nil ==> result != nil
+//@ func newProductQuantizer
+//@   property C08
+//@   safety -overflow -div
+//@   ensures err == nil ==> result0 != nil && fresh(result0) && result0.bucket == bucket && result0.items != nil && result0.items.bucket == bucket
+//@   ensures err == nil ==> ncalls(Get) == 2 && string(callarg(Get, 1, 1)) == "_productQuantizerCentroidDists" && string(callarg(Get, 2, 1)) == "_productQuantizerFlatCentroids"
+//@   ensures err == nil && callres(Get, 1, 0) != nil ==> result0.centroidDists == callres(BytesToFloat32, 1, 0) && callarg(BytesToFloat32, 1, 0) == callres(Get, 1, 0)
+//@   ensures err == nil && callres(Get, 2, 0) != nil ==> result0.flatCentroids == callres(BytesToFloat32, 2, 0) && callarg(BytesToFloat32, 2, 0) == callres(Get, 2, 0)
+//@   ensures err == nil && callres(Get, 1, 0) == nil ==> result0.centroidDists == nil
+//@   ensures err == nil && callres(Get, 2, 0) == nil ==> result0.flatCentroids == nil
